@@ -38,6 +38,7 @@ func main() {
 		flag.Usage()
 		os.Exit(2)
 	}
+	startDir, _ := os.Getwd()
 	var sps []*Spec
 	for _, f := range strings.Split(*specs, ",") {
 		abs, _ := filepath.Abs(f)
@@ -55,14 +56,24 @@ func main() {
 	if *eq != "" {
 		eqAbs, _ = filepath.Abs(*eq)
 	}
-	pkg, err := loadPkg(*repo)
-	if err != nil {
-		fmt.Println("decgen: STOP", err)
-		os.Exit(3)
-	}
+	pkgs := map[string]*Pkg{}
 	status := 0
 	var infos []targetInfo
 	for _, sp := range sps {
+		pkg := pkgs[sp.PkgDir]
+		if pkg == nil {
+			var err error
+			repoAbs, _ := filepath.Abs(*repo)
+			if !filepath.IsAbs(*repo) {
+				repoAbs = filepath.Join(startDir, *repo)
+			}
+			pkg, err = loadPkg(filepath.Join(repoAbs, sp.PkgDir))
+			if err != nil {
+				fmt.Println("decgen: STOP", err)
+				os.Exit(3)
+			}
+			pkgs[sp.PkgDir] = pkg
+		}
 		var defs []*Def
 		failed := false
 		for _, tg := range sp.Targets {
